@@ -111,6 +111,13 @@ def generate(seed, tier):
         k["n_max"] = max(k["n_max"], 5)      # a long file: crosses buffer boundaries
         tbs[0] = model.gen_treebank(rng, k, nsent=rng.randint(120, 300),
                                     sid_pattern="consecutive")
+    if rng.random() < 0.012 and src_fmt != "tigerxml":
+        # export numbers non-terminals 500..999: sentences at and next to that boundary
+        tbs[0] = [model.gen_sentence(rng, k, 1),
+                  model.big_sentence(rng, rng.choice([500, 500, 499, 498]), 2),
+                  model.gen_sentence(rng, k, 3)]
+        for i_, s_ in enumerate(tbs[0]):
+            s_["sid"] = i_ + 1
     kw = {}
     codec = src_fmt
     if src_fmt == "export":
@@ -146,9 +153,12 @@ def generate(seed, tier):
     if dirmode:
         steps = steps[:1]
     files = []
+    dname = rng.choice(["d", "d", "tb[2024]", "a*b", "d?x", "sp ace"]) if dirmode else "d"
     for j, tb in enumerate(tbs):
         name = "f%d%s%s" % (j, EXT[src_fmt], ".gz" if gz else "")
-        files.append({"path": ("/sim/w/d/" if dirmode else "/sim/w/") + name, "tb": tb,
+        if dirmode and j == 1 and rng.random() < 0.3:
+            name = "." + name                     # a dot file is a file like any other
+        files.append({"path": ("/sim/w/%s/" % dname if dirmode else "/sim/w/") + name, "tb": tb,
                       "codec": codec, "fmt": src_fmt, "layout": rng.randrange(1 << 30),
                       "enc": encs[0], "gz": gz, "kw": kw})
     return {"files": files, "steps": steps, "dirmode": dirmode,
@@ -253,12 +263,13 @@ def execute(sc, sim):
     outcomes = []
     state = dict(files)
     base = {"io_seed": sc["io_seed"], "short_reads": sc["short_reads"],
-            "listdir_seed": sc["listdir_seeds"][0], "dirs": ["/sim/w/d"] if sc["dirmode"] else []}
+            "listdir_seed": sc["listdir_seeds"][0],
+            "dirs": [sc["files"][0]["path"].rsplit("/", 1)[0]] if sc["dirmode"] else []}
 
     if sc["dirmode"]:
         # directory mode: one command over the directory (chains only over single files)
         nrun = 1
-        argv = argv_for(steps[0], "/sim/w/d", "/sim/w/ignored")
+        argv = argv_for(steps[0], sc["files"][0]["path"].rsplit("/", 1)[0], "/sim/w/ignored")
         spec = dict(base, files=state, sessions=[{"id": "s0", "ops": [["cli", argv]]}])
         obs = sim.run(spec)
         st.add_obs(obs)
